@@ -68,5 +68,17 @@ Definition run_view (c : cfg) (steps : list (pview * op)) : jv :=
   JL [ JL (map jv_res (run_ops c None steps));
        JL (map (fun s => jv_outcome jv_list (pl_cmdline c (fst s))) steps) ].
 
+(* every byte string as a cmdline file: model and the documented rule *)
+Definition run_cmd_bytes (c : cfg) (data : bytes) (zombie : bool) : jv :=
+  JL [ jv_outcome jv_list (pl_cmdline c (view_cmd_bytes data zombie));
+       jv_outcome jv_list (spec_cmd_bytes data zombie) ].
+
+Definition run_env_bytes (c : cfg) (data : bytes) : jv :=
+  JL [ jv_outcome jv_dict (pl_environ c (view_env_bytes data));
+       JC "Val" [jv_dict (spec_env (e_items (env_read data)))] ].
+
+(* the encoder *)
+Definition run_uenc (l : list Z) : jv := jopt JB (uencode l).
+
 (* the decoder itself *)
 Definition run_udec (l : bytes) : jv := JL (map JZ (udecode l)).
